@@ -81,7 +81,7 @@ def t0 : T := .node 2 [.node 1 [leaf], leaf]
 end C19Ex
 open C19Ex
 
-example : rankOK C19Ex.table [0, 1, 2] = true := by decide
+example : rankOK C19Ex.table [1, 2] = true := by decide
 example : (lowerCompletely (lowOfRules rules) 8 8 t0 0).map (·.2) = some 3 := by decide
 
 /-! ### 3. simplify -/
